@@ -134,7 +134,7 @@ func main() {
 					cases = append(cases, genScenario(r.Fork(), f, false))
 				}
 			}
-			for _, f := range []string{"undecodable", "nonpf", "reconnect", "reconnect", "burst", "burst", "live", "live"} {
+			for _, f := range []string{"undecodable", "nonpf", "reconnect", "reconnect", "burst", "burst", "live"} {
 				cases = append(cases, genScenario(r.Fork(), f, false))
 			}
 		}
